@@ -39,6 +39,7 @@ def _answers(prop, tier, system, thms, modes=(False,), level="model_checking"):
         dcases = infer.distinguishing_cases(rng) + infer.distinguishing_cases(rng, "wAnyTie") + infer.distinguishing_cases(rng, "lexAllMcsF") + infer.distinguishing_cases(rng, "wMinCard")
         dcases += [c for c in (infer.gen_case_defaults(rng) for _ in range(60 if tier == "quick" else 1500)) if c]
         dcases += [c for c in (infer.gen_case_chain(rng) for _ in range((220 if system in ("z", "p") else 80) if tier == "quick" else 2000)) if c]  # 3+ layers
+        dcases += [c for c in (infer.gen_case_dups(rng) for _ in range(40 if tier == "quick" else 800)) if c]  # a conditional stated twice
         if tier == "thorough":
             found = [p for p in infer.search_distinguishing(chk, rng, 20000) if p.get("variant") == "lexAllPairs"]
             chk.cov["distinguishing_inputs_found_live"] = len(found)
@@ -47,6 +48,9 @@ def _answers(prop, tier, system, thms, modes=(False,), level="model_checking"):
     if system == "c":
         # the constraint system over MINIMAL correction sets, as coded, refines skeptical inference over all c-representations
         infer.verify_algo(chk, tier, with_c=True)
+        dups = [c for c in (infer.gen_case_dups(rng) for _ in range(40 if tier == "quick" else 600)) if c and len(c["base"]) <= 4]
+        infer.run_sampled(chk, dups, configs, tag="dups")  # a conditional stated twice has two impacts
+        chk.cov["duplicate_conditional_cases"] = len(dups)
     chk.cov["exhaustive"] = True
     chk.cov["rule"] = (
         "path G: TLC enumerates every multiset of <=2 semantic conditionals over 2 atoms (3402 bases); those consistent for the mode are "
@@ -151,7 +155,7 @@ def check_C09(tier):
     infer.verify_theorems(chk, ["Direct", "SysP", "RM", "ConsPres"], tier, rng, sample2=(12 if tier == "quick" else 250))
     cases = rel.corpus_cases(rng, tier, per_size=1, nq=1)
     cases += rel.generated_cases(rng, 16 if tier == "quick" else 200, atom_range=(6, 24))
-    cases += rel.small_cases(rng, 50 if tier == "quick" else 600, shapes=("strong", "weak-mixed"))
+    cases += rel.small_cases(rng, 50 if tier == "quick" else 600, shapes=("strong", "weak-mixed", "weak-nofin"))
     fired = rel.run_postulates(chk, cases, modes=[False, True], n_inst=(6 if tier == "quick" else 12))
     need = {"DI", "REF", "SCL", "LLE", "RW", "AND", "OR", "CM", "CUT", "CONS", "RM"}
     missing = need - set(k for k, v in fired.items() if v > 0)
@@ -195,6 +199,7 @@ def check_C11(tier):
     for v in ("wAnyTie", "lexAllPairs", "lexAllMcsF", "wMinCard"):
         ties += infer.distinguishing_cases(rng, v)[: (8 if tier == "quick" else 60)]
     ties += [c for c in (infer.gen_case_chain(rng) for _ in range(8 if tier == "quick" else 100)) if c]
+    ties += [c for c in (infer.gen_case_dups(rng, 6) for _ in range(16 if tier == "quick" else 200)) if c]
     tie_cases = [{"kind": "trees", "sig": c["sig"], "base": [(x["B"], x["A"]) for x in c["base"]], "qs": [(x["B"], x["A"]) for x in c["qs"][:6]], "via": "api"} for c in ties]
     rel.run_inclusions(chk, tie_cases, modes=[False], budget=60, systems=("w", "l", "c"), backends={"w": ["z3"] + all_rc2, "l": ["z3"] + all_rc2, "c": all_rc2}, ev_kind="equal")
     chk.cov["tie_cases_under_every_engine"] = len(tie_cases)
